@@ -190,7 +190,11 @@ pub fn run(ctx: &Ctx) -> Report {
     let cases = ctx.tier.pick(1600, 16_000) / ctx.shard_count() as u32;
     let mix = gen::StartMix { startpos: 1, corpus: 4, synth: 6, pattern: 6 };
     run_prop(ctx, "c11", cases, 300, strategy(), &mut rep, |c, rep| {
-        let Some((start, label)) = gen::start_pos(&c.game.start, &corp, mix) else {
+        // a quarter of the cases: heavy pieces against an exposed king (long sequences of checks,
+        // so extension chains and mate scores are common)
+        let from_net = c.game.start[1] % 4 == 0;
+        let picked = if from_net { super::c12::mate_net_pos(&mut Entropy::new(&c.game.start[2..])).map(|p| (p, "mate-net".to_string())) } else { gen::start_pos(&c.game.start, &corp, mix) };
+        let Some((start, label)) = picked else {
             rep.class("start:rejected");
             return Ok(());
         };
